@@ -5,7 +5,7 @@ from ..ref import P, L, to32, le
 
 REQUIRED = ['ep:mul', 'ep:mulbase', 'ep:table16', 'ep:table32', 'ep:table64', 'ep:table128', 'ep:table256', 'ep:tableconv',
             'ep:mulclamped', 'ep:mulbaseclamped', 'ep:dsm', 'ep:msm', 'ep:vmsm', 'ep:omsm', 'ep:precomp', 'ep:ladder',
-            'ep:mulbits', 'ep:rs', 'n=0', 'n=1', 'n>=190', 'none-input', 'unreduced', 'torsion-point', 'digits:radix16',
+            'ep:mulbits', 'ep:rs', 'n=0', 'n=1', 'n>=190', 'none-input', 'none-special-scalar', 'zero-scalar', 'unreduced', 'torsion-point', 'digits:radix16',
             'digits:radix2w', 'digits:naf', 'carry63', 'nafstraddle']
 
 M255 = vals.M255
@@ -182,11 +182,31 @@ def multi(ctx, pool, sizes, reps=1):
             ctx.add('ed.vmsm', stoks, ptoks, expect=e, cls=['ep:vmsm'] + ncl)
             ctx.add('ed.omsm', stoks, ptoks, expect=e, cls=['ep:omsm'] + ncl)
             if n:
-                # None at first / middle / last position
-                pos = rng.choice([0, n // 2, n - 1])
-                pl = [p.tok() for p in ps]
-                pl[pos] = '~'
-                ctx.add('ed.omsm', stoks, lst(pl), expect=['none'], cls=['ep:omsm', 'none-input'] + ncl)
+                # None at first / middle / last position, paired with an ordinary and with a special scalar
+                # (a missing point must give None whatever its scalar is: zero, one, l-1)
+                for pos in set([0, n // 2, n - 1]) if n < 190 or reps else [n // 2]:
+                    pl = [p.tok() for p in ps]
+                    pl[pos] = '~'
+                    ctx.add('ed.omsm', stoks, lst(pl), expect=['none'], cls=['ep:omsm', 'none-input'] + ncl)
+                    for sv in (0, 1, L - 1):
+                        sl = [cs(s) for s in ss]
+                        sl[pos] = cs(sv)
+                        ctx.add('ed.omsm', lst(sl), lst(pl), expect=['none'], cls=['ep:omsm', 'none-input', 'none-special-scalar'] + ncl)
+                    if n <= 64:
+                        rl = ['e' + even(p).tok() for p in ps]
+                        rl[pos] = '~'
+                        sl = [cs(s) for s in ss]
+                        sl[pos] = cs(0)
+                        ctx.add('rs.omsm', lst(sl), lst(rl), expect=['none'], cls=['ep:rs', 'none-input', 'none-special-scalar'] + ncl)
+                # zero / one scalars on present points
+                sl = [cs(s) for s in ss]
+                acc2 = acc
+                for pos in set([0, n - 1]):
+                    acc2 = vals.pt_add(acc2, vals.pt_neg(vals.pt_mul(ss[pos], ps[pos])))
+                    sl[pos] = cs(0)
+                ctx.add('ed.vmsm', lst(sl), ptoks, expect=exp_pt(acc2), cls=['ep:vmsm', 'zero-scalar'] + ncl)
+                if n <= 200:
+                    ctx.add('ed.msm', lst(sl), ptoks, expect=exp_pt(acc2), cls=['ep:msm', 'zero-scalar'] + ncl)
             # Ristretto wrappers on the prime-order parts (any representative is fine: use the Edwards encodings
             # wrapped through the hook as coset representatives)
             if n <= 64:
